@@ -219,11 +219,13 @@ def traces(rep, tier):
      'raiser': 'async def f() -> AsyncGenerator[object, object]:\n    yield 1\n    raise KeyError("k")\n',
      'empty': 'async def f() -> AsyncGenerator[object, object]:\n    return\n    yield\n',
      'swallow': 'async def f() -> AsyncGenerator[object, object]:\n    try:\n        yield 1\n    except GeneratorExit:\n        return\n',
+     'catchbase': 'async def f() -> AsyncGenerator[object, object]:\n    while True:\n        try:\n            x = yield 1\n        except BaseException as e:\n            if isinstance(e, GeneratorExit): raise\n            LOG.append("caught " + type(e).__name__); x = yield -2\n        finally:\n            LOG.append("cleanup")\n',
      'reraise': 'async def f() -> AsyncGenerator[object, object]:\n    try:\n        yield 1\n    except BaseException as e:\n        LOG.append(type(e).__name__); raise\n',
     }
     SBODIES = {k: v.replace('async def', 'def').replace('AsyncGenerator[object, object]', 'Generator[object, object, object]') for k, v in BODIES.items()}
     SBODIES['ret'] = 'def f() -> Generator[object, object, object]:\n    x = yield 1\n    return (x, "done")\n'
-    OPS = ['next', 'send0', 'send5', 'sendNone', 'throwV', 'throwStop', 'throwExit', 'close']
+    OPS = ['next', 'send0', 'send5', 'sendNone', 'throwV', 'throwBase', 'throwStop', 'throwExit', 'close']
+    class Abort(BaseException): pass      # not an Exception: cancellation-like signals (CancelledError, KeyboardInterrupt) must reach the body too
     maxlen = 3 if tier == 'quick' else 4
     def run_async(fn, seq, LOG):
         async def go():
@@ -235,6 +237,7 @@ def traces(rep, tier):
                     elif op == 'send5': r = await g.asend(5)
                     elif op == 'sendNone': r = await g.asend(None)
                     elif op == 'throwV': r = await g.athrow(ValueError('v'))
+                    elif op == 'throwBase': r = await g.athrow(Abort('b'))
                     elif op == 'throwStop': r = await g.athrow(StopAsyncIteration())
                     elif op == 'throwExit': r = await g.athrow(GeneratorExit())
                     else: r = await g.aclose()
@@ -253,6 +256,7 @@ def traces(rep, tier):
                 elif op == 'send5': r = g.send(5)
                 elif op == 'sendNone': r = g.send(None)
                 elif op == 'throwV': r = g.throw(ValueError('v'))
+                elif op == 'throwBase': r = g.throw(Abort('b'))
                 elif op == 'throwStop': r = g.throw(StopIteration())
                 elif op == 'throwExit': r = g.throw(GeneratorExit())
                 else: r = g.close()
@@ -278,7 +282,7 @@ def traces(rep, tier):
                     cases += 1
                     if res[0] != res[1]: bad.append((kindname, bname, seq, f'undecorated {res[0]} vs decorated {res[1]}'[:400]))
     groups = {}
-    for b in bad: groups.setdefault((b[0], 'genexit' if 'throwExit' in b[2] else ('throwStop' if 'throwStop' in b[2] else 'other')), []).append(b)
+    for b in bad: groups.setdefault((b[0], 'genexit' if 'throwExit' in b[2] else ('throwStop' if 'throwStop' in b[2] else ('throwBase' if 'throwBase' in b[2] else 'other'))), []).append(b)
     for (kindname, cls), items in sorted(groups.items()):
         items.sort(key=lambda b: len(b[2])); b = items[0]
         rep.add(f'C08.traces.{kindname}.{cls}', 'refuted', backend='runtime-contract', where=f'{len(items)} sequences; shortest: body {b[1]} ops {b[2]}: {b[3]}'[:600], solver_output='bounded run-time contract (not a proof)',
